@@ -298,7 +298,7 @@ def main(argv=None):
     # over the groups so that every backend keeps its most important harnesses; what does not fit runs in the thorough tier.
     # (vp check stops a quick command after 900 s; 16 cores, builds take 1-2 min.)
     if tier == "quick" and not only:
-        budget = float(os.environ.get("VERIF_QUICK_BUDGET_S", "5000"))
+        budget = float(os.environ.get("VERIF_QUICK_BUDGET_S", "4500"))
         cost = lambda un, h: timings.get(f"{un}::{h.name}", 120.0)
         queues = {g: [(u.name, h) for u in us for h in selected[u.name]] for g, us in groups.items()}
         # within a group keep the round-robin order over its units
@@ -361,17 +361,21 @@ def main(argv=None):
         return ws, rec, b
 
     try:
-        prep_futs = {u.name: pool.submit(prep, u) for u, _ in plan}
+        from concurrent.futures import as_completed
+        cost_of = lambda h: timings.get(f"{h.unit}::{h.name}", 120.0)
+        prep_futs = {pool.submit(prep, u): (u, hs) for u, hs in plan}
         harness_futs = []
-        for u, hs in plan:
+        # harnesses are submitted as soon as their group's build is done, the most expensive first (shorter tail)
+        for pf in as_completed(prep_futs):
+            u, hs = prep_futs[pf]
             try:
-                ws, rec, b = prep_futs[u.name].result()
+                ws, rec, b = pf.result()
             except Undecided as e:
                 undecided_units.append((u.name, str(e)))
                 continue
             workspaces[u.name] = ws
             unit_info[u.name] = {"injection": rec, "build_s": round(b, 1)}
-            for h in hs:
+            for h in sorted(hs, key=cost_of, reverse=True):
                 harness_futs.append(pool.submit(core.run_harness, u, h, ws, logdir))
         for f in harness_futs:
             results.append(f.result())
